@@ -26,6 +26,7 @@ mod simnet;
 mod c02;
 mod c10;
 mod c01;
+mod cluster;
 
 use common::Tier;
 
